@@ -1,0 +1,161 @@
+//go:build verif
+
+package unique
+
+// Contracts for GoVC (see /verif/DESIGN.md). Comment-only: compiles to nothing.
+//
+// KeyedList / KeyedMap are single-threaded objects. C20 for them says two things:
+//   replay   the change notifications of a call, replayed on the contents before the call, give the contents
+//            after it: the ghost shadow (shin, shval) starts as the previous contents (definitional assumption
+//            shadow0), is updated only by the ghost statement at each call of `changed`, and equals the map at
+//            every loop head and at return; the flags of each notification match the shadow (added = key
+//            was absent; removed = key was present and the reported value is the stored one)
+//   latest   after a value has been processed the map holds it, or the comparison callback was just asked
+//            about exactly this value against the stored one and answered "equal" (assert backedge); after a
+//            key has been processed by a remove call it is absent
+//   SetValues additionally: keys that were present and are not re-set are removed (through notSeen), and
+//            only those (GetKeys = maps.Keys is a trusted contract: it returns keys of the map, all of them)
+//
+//@ ghostmap shin: any -> bool local
+//@ ghostmap shval: any -> any local
+//
+//@ ghostmap seen: any -> bool local
+//
+//@ func (*KeyedList).AppendValues
+//@   props C20
+//@   opt frame = skip
+//@   requires l != nil && l.vals != nil && l.getKey != nil && l.cmp != nil && l.changed != nil
+//@   assume shadow0: forall key: any {shin(key)} :: shin(key) == in(l.vals, key) && shval(key) == l.vals[key]
+//@   loop 1 invariant same: l.vals == old(l.vals)
+//@   loop 1 invariant shadow: forall key: any {l.vals[key]} :: in(l.vals, key) == shin(key) && (in(l.vals, key) ==> l.vals[key] == shval(key))
+//@   assert callback changed: flags: lastarg(l.changed, 2) == !shin(lastarg(l.changed, 0)) && !lastarg(l.changed, 3)
+//@   ghost callback changed: shval(lastarg(l.changed, 0)) := lastarg(l.changed, 1)
+//@   ghost callback changed: shin(lastarg(l.changed, 0)) := true
+//@   assert backedge 1: latest: in(l.vals, k) && (l.vals[k] == v || (lastarg(l.cmp, 0) == k && lastarg(l.cmp, 1) == v && lastarg(l.cmp, 2) == l.vals[k] && lastret(l.cmp, 0)))
+//@   ensures replay: forall key: any {l.vals[key]} :: in(l.vals, key) == shin(key) && (in(l.vals, key) ==> l.vals[key] == shval(key))
+//
+//@ func (*KeyedList).RemoveValues
+//@   props C20
+//@   opt frame = skip
+//@   requires l != nil && l.vals != nil && l.getKey != nil && l.cmp != nil && l.changed != nil
+//@   assume shadow0: forall key: any {shin(key)} :: shin(key) == in(l.vals, key) && shval(key) == l.vals[key]
+//@   loop 1 invariant same: l.vals == old(l.vals)
+//@   loop 1 invariant shadow: forall key: any {l.vals[key]} :: in(l.vals, key) == shin(key) && (in(l.vals, key) ==> l.vals[key] == shval(key))
+//@   assert callback changed: flags: !lastarg(l.changed, 2) && lastarg(l.changed, 3) && shin(lastarg(l.changed, 0)) && lastarg(l.changed, 1) == shval(lastarg(l.changed, 0))
+//@   ghost callback changed: shin(lastarg(l.changed, 0)) := false
+//@   assert backedge 1: gone: !in(l.vals, k)
+//@   ensures replay: forall key: any {l.vals[key]} :: in(l.vals, key) == shin(key) && (in(l.vals, key) ==> l.vals[key] == shval(key))
+//
+//@ func (*KeyedList).RemoveKeys
+//@   props C20
+//@   opt frame = skip
+//@   requires l != nil && l.vals != nil && l.getKey != nil && l.cmp != nil && l.changed != nil
+//@   assume shadow0: forall key: any {shin(key)} :: shin(key) == in(l.vals, key) && shval(key) == l.vals[key]
+//@   loop 1 invariant same: l.vals == old(l.vals)
+//@   loop 1 invariant shadow: forall key: any {l.vals[key]} :: in(l.vals, key) == shin(key) && (in(l.vals, key) ==> l.vals[key] == shval(key))
+//@   assert callback changed: flags: !lastarg(l.changed, 2) && lastarg(l.changed, 3) && shin(lastarg(l.changed, 0)) && lastarg(l.changed, 1) == shval(lastarg(l.changed, 0))
+//@   ghost callback changed: shin(lastarg(l.changed, 0)) := false
+//@   assert backedge 1: gone: !in(l.vals, k)
+//@   ensures replay: forall key: any {l.vals[key]} :: in(l.vals, key) == shin(key) && (in(l.vals, key) ==> l.vals[key] == shval(key))
+//
+//@ func (*KeyedList).GetKeys
+//@   props C20
+//@   trusted golang.org/x/exp/maps.Keys: the keys of the map, each of them
+//@   ensures sound: forall j: int {result[j]} :: 0 <= j && j < len(result) ==> in(l.vals, result[j])
+//@   ensures complete: forall key: any {l.vals[key]} :: in(l.vals, key) ==> exists j: int :: 0 <= j && j < len(result) && result[j] == key
+//@   ensures unchanged: l.vals == old(l.vals) && (forall key: any {l.vals[key]} :: in(l.vals, key) == old(in(l.vals, key)) && l.vals[key] == old(l.vals[key]))
+//
+//@ func (*KeyedList).SetValues
+//@   props C20
+//@   opt frame = skip
+//@   requires l != nil && l.vals != nil && l.getKey != nil && l.cmp != nil && l.changed != nil
+//@   assume shadow0: forall key: any {shin(key)} :: shin(key) == in(l.vals, key) && shval(key) == l.vals[key]
+//@   assume seen0: forall key: any {seen(key)} :: !seen(key)
+//@   loop 1 invariant noneseen: forall key: any {seen(key)} :: !seen(key)
+//@   loop 1 invariant same: l.vals == old(l.vals) && notSeen != nil
+//@   loop 1 invariant shadow: forall key: any {l.vals[key]} :: in(l.vals, key) == shin(key) && (in(l.vals, key) ==> l.vals[key] == shval(key))
+//@   loop 1 invariant collected: (forall j: int {prevKeys[j]} :: 0 <= j && j <= rangeindex ==> in(notSeen, prevKeys[j])) && (forall key: any {notSeen[key]} :: in(notSeen, key) ==> in(l.vals, key))
+//@   loop 1 invariant keys: (forall j: int {prevKeys[j]} :: 0 <= j && j < len(prevKeys) ==> in(l.vals, prevKeys[j])) && (forall key: any {l.vals[key]} :: in(l.vals, key) ==> exists j: int :: 0 <= j && j < len(prevKeys) && prevKeys[j] == key)
+//@   loop 2 invariant same: l.vals == old(l.vals) && notSeen != nil
+//@   loop 2 invariant shadow: forall key: any {l.vals[key]} :: in(l.vals, key) == shin(key) && (in(l.vals, key) ==> l.vals[key] == shval(key))
+//@   loop 2 invariant pending: forall key: any {notSeen[key]} :: in(notSeen, key) ==> in(l.vals, key)
+//@   loop 2 invariant kept: forall key: any {seen(key)} :: seen(key) ==> in(l.vals, key) && !in(notSeen, key)
+//@   loop 2 invariant covered: forall key: any {l.vals[key]} :: in(l.vals, key) && !in(notSeen, key) ==> !old(in(l.vals, key)) || seen(key)
+//@   loop 3 invariant same: l.vals == old(l.vals) && notSeen != nil
+//@   loop 3 invariant shadow: forall key: any {l.vals[key]} :: in(l.vals, key) == shin(key) && (in(l.vals, key) ==> l.vals[key] == shval(key))
+//@   loop 3 invariant pending: forall key: any {notSeen[key]} :: in(notSeen, key) && !visited(key) ==> in(l.vals, key)
+//@   loop 3 invariant removed: forall key: any {notSeen[key]} :: in(notSeen, key) && visited(key) ==> !in(l.vals, key)
+//@   loop 3 invariant kept: forall key: any {seen(key)} :: seen(key) ==> in(l.vals, key) && !in(notSeen, key)
+//@   loop 3 invariant covered: forall key: any {l.vals[key]} :: in(l.vals, key) && !in(notSeen, key) ==> !old(in(l.vals, key)) || seen(key)
+//@   assert callback changed: flags: (lastarg(l.changed, 3) ==> !lastarg(l.changed, 2) && shin(lastarg(l.changed, 0)) && lastarg(l.changed, 1) == shval(lastarg(l.changed, 0))) && (!lastarg(l.changed, 3) ==> lastarg(l.changed, 2) == !shin(lastarg(l.changed, 0)))
+//@   ghost callback changed: shval(lastarg(l.changed, 0)) := lastarg(l.changed, 1)
+//@   ghost callback changed: shin(lastarg(l.changed, 0)) := !lastarg(l.changed, 3)
+//@   ghost backedge 2: seen(k) := true
+//@   assert backedge 2: latest: in(l.vals, k) && (l.vals[k] == v || (lastarg(l.cmp, 0) == k && lastarg(l.cmp, 1) == v && lastarg(l.cmp, 2) == l.vals[k] && lastret(l.cmp, 0)))
+//@   ensures replay: forall key: any {l.vals[key]} :: in(l.vals, key) == shin(key) && (in(l.vals, key) ==> l.vals[key] == shval(key))
+//@   ensures setkept: forall key: any {seen(key)} :: seen(key) ==> in(l.vals, key)
+//@   ensures unsetremoved: forall key: any {l.vals[key]} :: in(l.vals, key) && old(in(l.vals, key)) ==> seen(key)
+//
+//@ func (*KeyedMap).AppendValues
+//@   props C20
+//@   opt frame = skip
+//@   requires l != nil && l.vals != nil && l.cmp != nil && l.changed != nil
+//@   assume shadow0: forall key: any {shin(key)} :: shin(key) == in(l.vals, key) && shval(key) == l.vals[key]
+//@   loop 1 invariant same: l.vals == old(l.vals)
+//@   loop 1 invariant shadow: forall key: any {l.vals[key]} :: in(l.vals, key) == shin(key) && (in(l.vals, key) ==> l.vals[key] == shval(key))
+//@   assert callback changed: flags: lastarg(l.changed, 2) == !shin(lastarg(l.changed, 0)) && !lastarg(l.changed, 3)
+//@   ghost callback changed: shval(lastarg(l.changed, 0)) := lastarg(l.changed, 1)
+//@   ghost callback changed: shin(lastarg(l.changed, 0)) := true
+//@   assert backedge 1: latest: in(l.vals, k) && (l.vals[k] == v || (lastarg(l.cmp, 0) == k && lastarg(l.cmp, 1) == v && lastarg(l.cmp, 2) == l.vals[k] && lastret(l.cmp, 0)))
+//@   ensures replay: forall key: any {l.vals[key]} :: in(l.vals, key) == shin(key) && (in(l.vals, key) ==> l.vals[key] == shval(key))
+//
+//@ func (*KeyedMap).RemoveKeys
+//@   props C20
+//@   opt frame = skip
+//@   requires l != nil && l.vals != nil && l.cmp != nil && l.changed != nil
+//@   assume shadow0: forall key: any {shin(key)} :: shin(key) == in(l.vals, key) && shval(key) == l.vals[key]
+//@   loop 1 invariant same: l.vals == old(l.vals)
+//@   loop 1 invariant shadow: forall key: any {l.vals[key]} :: in(l.vals, key) == shin(key) && (in(l.vals, key) ==> l.vals[key] == shval(key))
+//@   assert callback changed: flags: !lastarg(l.changed, 2) && lastarg(l.changed, 3) && shin(lastarg(l.changed, 0)) && lastarg(l.changed, 1) == shval(lastarg(l.changed, 0))
+//@   ghost callback changed: shin(lastarg(l.changed, 0)) := false
+//@   assert backedge 1: gone: !in(l.vals, k)
+//@   ensures replay: forall key: any {l.vals[key]} :: in(l.vals, key) == shin(key) && (in(l.vals, key) ==> l.vals[key] == shval(key))
+//
+//@ func (*KeyedMap).GetKeys
+//@   props C20
+//@   trusted golang.org/x/exp/maps.Keys: the keys of the map, each of them
+//@   ensures sound: forall j: int {result[j]} :: 0 <= j && j < len(result) ==> in(l.vals, result[j])
+//@   ensures complete: forall key: any {l.vals[key]} :: in(l.vals, key) ==> exists j: int :: 0 <= j && j < len(result) && result[j] == key
+//@   ensures unchanged: l.vals == old(l.vals) && (forall key: any {l.vals[key]} :: in(l.vals, key) == old(in(l.vals, key)) && l.vals[key] == old(l.vals[key]))
+//
+//@ func (*KeyedMap).SetValues
+//@   props C20
+//@   opt frame = skip
+//@   requires l != nil && l.vals != nil && l.cmp != nil && l.changed != nil
+//@   assume shadow0: forall key: any {shin(key)} :: shin(key) == in(l.vals, key) && shval(key) == l.vals[key]
+//@   assume seen0: forall key: any {seen(key)} :: !seen(key)
+//@   loop 1 invariant noneseen: forall key: any {seen(key)} :: !seen(key)
+//@   loop 1 invariant same: l.vals == old(l.vals) && notSeen != nil
+//@   loop 1 invariant shadow: forall key: any {l.vals[key]} :: in(l.vals, key) == shin(key) && (in(l.vals, key) ==> l.vals[key] == shval(key))
+//@   loop 1 invariant collected: (forall j: int {prevKeys[j]} :: 0 <= j && j <= rangeindex ==> in(notSeen, prevKeys[j])) && (forall key: any {notSeen[key]} :: in(notSeen, key) ==> in(l.vals, key))
+//@   loop 1 invariant keys: (forall j: int {prevKeys[j]} :: 0 <= j && j < len(prevKeys) ==> in(l.vals, prevKeys[j])) && (forall key: any {l.vals[key]} :: in(l.vals, key) ==> exists j: int :: 0 <= j && j < len(prevKeys) && prevKeys[j] == key)
+//@   loop 2 invariant same: l.vals == old(l.vals) && notSeen != nil
+//@   loop 2 invariant shadow: forall key: any {l.vals[key]} :: in(l.vals, key) == shin(key) && (in(l.vals, key) ==> l.vals[key] == shval(key))
+//@   loop 2 invariant pending: forall key: any {notSeen[key]} :: in(notSeen, key) ==> in(l.vals, key)
+//@   loop 2 invariant kept: forall key: any {seen(key)} :: seen(key) ==> in(l.vals, key) && !in(notSeen, key)
+//@   loop 2 invariant covered: forall key: any {l.vals[key]} :: in(l.vals, key) && !in(notSeen, key) ==> !old(in(l.vals, key)) || seen(key)
+//@   loop 3 invariant same: l.vals == old(l.vals) && notSeen != nil
+//@   loop 3 invariant shadow: forall key: any {l.vals[key]} :: in(l.vals, key) == shin(key) && (in(l.vals, key) ==> l.vals[key] == shval(key))
+//@   loop 3 invariant pending: forall key: any {notSeen[key]} :: in(notSeen, key) && !visited(key) ==> in(l.vals, key)
+//@   loop 3 invariant removed: forall key: any {notSeen[key]} :: in(notSeen, key) && visited(key) ==> !in(l.vals, key)
+//@   loop 3 invariant kept: forall key: any {seen(key)} :: seen(key) ==> in(l.vals, key) && !in(notSeen, key)
+//@   loop 3 invariant covered: forall key: any {l.vals[key]} :: in(l.vals, key) && !in(notSeen, key) ==> !old(in(l.vals, key)) || seen(key)
+//@   assert callback changed: flags: (lastarg(l.changed, 3) ==> !lastarg(l.changed, 2) && shin(lastarg(l.changed, 0)) && lastarg(l.changed, 1) == shval(lastarg(l.changed, 0))) && (!lastarg(l.changed, 3) ==> lastarg(l.changed, 2) == !shin(lastarg(l.changed, 0)))
+//@   ghost callback changed: shval(lastarg(l.changed, 0)) := lastarg(l.changed, 1)
+//@   ghost callback changed: shin(lastarg(l.changed, 0)) := !lastarg(l.changed, 3)
+//@   ghost backedge 2: seen(k) := true
+//@   assert backedge 2: latest: in(l.vals, k) && (l.vals[k] == v || (lastarg(l.cmp, 0) == k && lastarg(l.cmp, 1) == v && lastarg(l.cmp, 2) == l.vals[k] && lastret(l.cmp, 0)))
+//@   ensures replay: forall key: any {l.vals[key]} :: in(l.vals, key) == shin(key) && (in(l.vals, key) ==> l.vals[key] == shval(key))
+//@   ensures setkept: forall key: any {seen(key)} :: seen(key) ==> in(l.vals, key)
+//@   ensures unsetremoved: forall key: any {l.vals[key]} :: in(l.vals, key) && old(in(l.vals, key)) ==> seen(key)
+//
